@@ -43,7 +43,7 @@ RETRY_RULE = ("retry: one request through the real proxy (in-process, loopback) 
 PROPS["C04"] = {
     "module": "CqlVerif.Props.C04",
     "gens": ["policy"],
-    "streams": [RETRY_STREAM],
+    "streams": [RETRY_STREAM, {"name": "idem", "quick": 1500, "thorough": 100000}],
     "claim": "Lean theorem no_unsafe_reexec over Model/Retry for all plans, outcome scripts, re-prepare outcomes and host failures between attempts; policy decisions are generated from retrypolicy.go on every run; model tied to request.go/clientconn.go by the e2e retry stream, NoUnsafeReexec evaluated on every observed trace",
     "note": "trusted: Lean kernel, policy translator, hand-written Retry model + e2e correspondence (fakecass scripted outcomes); statement classification is C06's theorem plus the catalogue of request kinds whose ground truth is attached by construction; whether a backend applied a write is outside by definition",
     "rule": RETRY_RULE,
